@@ -19,7 +19,7 @@ LEVEL_NOTE = ("Trusted: Lean kernel, standard axioms; model tied by corresponden
               "fragment only (strings outside it are reported as unsupported by the model and judged by the oracle alone).")
 TECHNIQUE = "Lean 4 theorems (carrier independence by induction on the annotation) + correspondence of the strload fragment + five-carrier / text-equivalence oracle"
 DESIGN_REF = "DESIGN.md §5 C14"
-MODULES = ["TypelibModel.Props.Dispatch"]
+MODULES = ["TypelibModel.Props.C14", "TypelibModel.Props.Dispatch"]
 TABLES = True
 RULE = ("strings: wire forms of valid values rendered by json.dumps and repr, numeric/boolean/null look-alikes, malformed JSON, "
         "control characters, non-ASCII; each given in the five carriers to unmarshal(T, .) for T in U; non-trivial = string "
